@@ -37,21 +37,40 @@ class Res:
         return not self.crash and self.compile_error is None and not self.contract and "input_error" not in self.d
 
 
-def run_cases(lines, flavour="plain", mode="run", timeout=3600, chunk=4000):
-    """Run encoded case lines through zwdrv; returns list of Res (one per line)."""
+def _run_chunk(args):
+    part, flavour, mode, timeout = args
+    rc, o, e = common.run([common.impl_bin("zwdrv", flavour), mode],
+                          input="".join(l + "\n" for l in part), timeout=timeout)
     out = []
-    for i in range(0, len(lines), chunk):
-        part = lines[i:i + chunk]
-        rc, o, e = common.run([common.impl_bin("zwdrv", flavour), mode],
-                              input="".join(l + "\n" for l in part), timeout=timeout)
-        got = [l for l in o.split("\n") if l]
-        for l in got:
-            try:
-                out.append(Res(json.loads(l)))
-            except Exception:
-                out.append(Res({"crash": "unparsable driver output: " + l[:200]}))
-        while len(out) < i + len(part):
-            out.append(Res({"crash": "driver gave no answer (rc=%s) %s" % (rc, e[-200:])}))
+    for l in o.split("\n"):
+        if not l:
+            continue
+        try:
+            out.append(Res(json.loads(l)))
+        except Exception:
+            out.append(Res({"crash": "unparsable driver output: " + l[:200]}))
+    while len(out) < len(part):
+        out.append(Res({"crash": "driver gave no answer (rc=%s) %s" % (rc, e[-200:])}))
+    return out[:len(part)]
+
+
+def run_cases(lines, flavour="plain", mode="run", timeout=3600, chunk=None, jobs=None):
+    """Run encoded case lines through zwdrv; returns list of Res (one per line).
+    Cases are spread over `jobs` driver processes unless `chunk` asks for one
+    process (needed when answers must share one address space)."""
+    from concurrent.futures import ThreadPoolExecutor
+    if not lines:
+        return []
+    jobs = jobs or int(common.NPROC)
+    if chunk is not None and chunk >= len(lines):
+        return _run_chunk((lines, flavour, mode, timeout))
+    size = chunk or max(1, min(400, (len(lines) + jobs - 1) // jobs))
+    parts = [lines[i:i + size] for i in range(0, len(lines), size)]
+    with ThreadPoolExecutor(max_workers=jobs) as ex:
+        res = list(ex.map(_run_chunk, [(p, flavour, mode, timeout) for p in parts]))
+    out = []
+    for r in res:
+        out += r
     return out
 
 
